@@ -864,6 +864,29 @@ fn node_spec(depth: u32) -> BoxedStrategy<NodeSpec> {
     }
 }
 
+/// Cross-field constraints of the generators, for cases that were recombined by the fuzz mutator:
+/// a mapping is a valid configuration (base + range within 2^32, range > 0) and sibling names in
+/// a backend tree are unique.
+pub fn map_ok(m: &Map3) -> bool {
+    m.2 > 0 && m.0 as u64 + m.2 as u64 <= 1 << 32 && m.1 as u64 + m.2 as u64 <= 1 << 32
+}
+pub fn tree_ok(t: &TreeSpec) -> bool {
+    fn uniq(ch: &[NodeSpec]) -> bool {
+        let mut seen = BTreeSet::new();
+        ch.iter().all(|c| !c.name.is_empty() && seen.insert(c.name.clone()) && uniq(&c.children))
+    }
+    uniq(&t.children)
+}
+pub fn in_domain(cs: &Case) -> bool {
+    cs.global.iter().all(map_ok)
+        && !cs.backends.is_empty()
+        && cs.backends.iter().all(tree_ok)
+        && cs.ops.iter().all(|o| match o {
+            Op::Mount { map, .. } => map.iter().all(map_ok),
+            _ => true,
+        })
+}
+
 pub fn tree_spec() -> BoxedStrategy<TreeSpec> {
     let ids = prop_oneof![Just(0u32), Just(1000), Just(1005), Just(2003), 0u32..3000];
     (prop_oneof![Just(1u64), Just(2), Just(100), Just(1u64 << 39)], ids.clone(), ids, proptest::collection::vec(node_spec(1), 0..4))
@@ -936,7 +959,7 @@ pub fn strategy(idmap: bool) -> BoxedStrategy<Case> {
 
 pub struct C07;
 
-fn run_route(c: &Case) -> Outcome {
+pub fn run_route(c: &Case) -> Outcome {
     let mut o = run(c);
     o.fails.retain(|f| f.sig.starts_with("route/") || f.sig.starts_with("panic/"));
     o.nontrivial = o.classes.iter().any(|c| c == "route:nontrivial");
@@ -970,7 +993,7 @@ impl Prop for C07 {
 
 pub struct C14;
 
-fn run_idmap(c: &Case) -> Outcome {
+pub fn run_idmap(c: &Case) -> Outcome {
     let mut o = run(c);
     o.fails.retain(|f| f.sig.starts_with("idmap/") || f.sig.starts_with("panic/"));
     o.nontrivial = o.classes.iter().any(|c| c == "idmap:nontrivial");
